@@ -849,3 +849,111 @@ func ruleLockPair(c *Ctx, r *Reporter) {
 		r.undecided("locks", "-", fmt.Sprintf("expected at least 8 mutex acquisitions in library code, found %d", n))
 	}
 }
+
+func init() {
+	register(&Rule{
+		ID: "GUARDED-BY", Props: []string{"C20", "C16", "C10"}, Floor: 15,
+		Doc: "the fields a mutex protects are only touched while it is held: WatchSet.chans/cases under WatchSet.mu, acquiredInfo.* under acquiredInfo.mu, progressTracker.* under progressTracker.mu (constructors excepted)",
+		Run: ruleGuardedBy,
+	})
+}
+
+// guarded fields: struct -> (mutex class, fields, properties)
+var guardedFields = []struct {
+	typ, pkg string
+	class    string
+	fields   map[string]bool
+	props    []string
+}{
+	{"WatchSet", "statedb", "statedb.WatchSet.mu", map[string]bool{"chans": true, "cases": true}, []string{"C20"}},
+	{"acquiredInfo", "statedb", "statedb.acquiredInfo.mu", map[string]bool{"handle": true, "acquiredAt": true, "duration": true}, []string{"C10"}},
+	{"progressTracker", "reconciler", "reconciler.progressTracker.mu", map[string]bool{"revision": true, "retryLowWatermark": true, "watch": true}, []string{"C16"}},
+}
+
+func ruleGuardedBy(c *Ctx, r *Reporter) {
+	n := 0
+	for _, fn := range c.Funcs {
+		// the instructions executed while each class is held in this function
+		held := map[string]map[ssa.Instruction]bool{}
+		for _, ia := range allInstrs(fn) {
+			call, ok := ia.In.(ssa.CallInstruction)
+			if !ok {
+				continue
+			}
+			if _, isDefer := ia.In.(*ssa.Defer); isDefer {
+				continue
+			}
+			cl, acq, ok := c.lockClassOfCall(call)
+			if !ok || !acq {
+				continue
+			}
+			if held[cl] == nil {
+				held[cl] = map[ssa.Instruction]bool{}
+			}
+			for _, in := range c.heldRegion(fn, call, cl) {
+				held[cl][in] = true
+			}
+		}
+		ord := map[string]int{}
+		for _, ia := range allInstrs(fn) {
+			fa, ok := ia.In.(*ssa.FieldAddr)
+			if !ok {
+				continue
+			}
+			tn, f, ok := fieldOf(fa)
+			if !ok {
+				continue
+			}
+			for _, g := range guardedFields {
+				if tn != g.typ || !g.fields[f] {
+					continue
+				}
+				// constructors: the object is a fresh allocation not yet shared
+				if _, isAlloc := fa.X.(*ssa.Alloc); isAlloc {
+					continue
+				}
+				// function literals deferred inside a holding function run while it is held
+				inHeld := held[g.class][ia.In]
+				if !inHeld && fn.Parent() != nil {
+					inHeld = deferredInHolder(c, fn, g.class)
+				}
+				n++
+				base := fmt.Sprintf("%s|%s.%s", c.fnName(fn), tn, f)
+				ord[base]++
+				key := fmt.Sprintf("%s#%d", base, ord[base])
+				if inHeld {
+					r.okP(g.props, key, c.posStr(instrPos(fa)), "accessed while "+g.class+" is held")
+				} else {
+					r.badP(g.props, key, c.posStr(instrPos(fa)), tn+"."+f+" is accessed without holding "+g.class+": concurrent callers race on it")
+				}
+			}
+		}
+	}
+	if n < 15 {
+		r.undecided("accesses", "-", fmt.Sprintf("expected at least 15 accesses to guarded fields, found %d", n))
+	}
+}
+
+// deferredInHolder: fn is a function literal that its parent defers while holding class.
+func deferredInHolder(c *Ctx, fn *ssa.Function, class string) bool {
+	p := fn.Parent()
+	for _, ia := range allInstrs(p) {
+		d, ok := ia.In.(*ssa.Defer)
+		if !ok {
+			continue
+		}
+		mc, ok := d.Call.Value.(*ssa.MakeClosure)
+		if !ok || mc.Fn != ssa.Value(fn) {
+			continue
+		}
+		// the parent holds the class until its deferred unlock, which was registered earlier
+		for _, ib := range allInstrs(p) {
+			if d2, ok := ib.In.(*ssa.Defer); ok {
+				if cl, acq, ok := c.lockClassOfCall(d2); ok && !acq && cl == class && instrDominates(d2, d) {
+					return true
+				}
+			}
+		}
+	}
+	return false
+}
